@@ -81,6 +81,9 @@ def _account(ctx: Ctx, case, summ, suite):
 
 
 def run(ctx: Ctx):
+    import fsize
+    for _ in range(ctx.n(1, 8)):
+        fsize.take_case(ctx, fsize.rand_take_cfg(ctx.rng))
     detsim.install()
     for case in CORPUS:
         _account(ctx, case, cl.run_case(ctx, case, "corpus"), "corpus")
@@ -165,6 +168,15 @@ def _dfs(ctx: Ctx):
 
 
 def replay(ctx: Ctx, rec):
+    if isinstance(rec.get("input"), dict) and rec["input"].get("fsize_limit"):
+        import fsize
+        cfg = {k: v for k, v in rec["input"].items() if k not in ("fsize_limit", "dir", "mode")}
+        (fsize.plugin_case if rec["input"]["fsize_limit"] == "plugin" else fsize.take_case)(ctx, cfg, "replay")
+        for f_ in ctx.failures[:10]:
+            print("FAIL", f_["sig"], f_["what"], f_["observed"])
+        if not ctx.failures:
+            print("no failure on replay")
+        return
     detsim.install()
     case = rec["input"]
     for rd in case["rounds"]:
